@@ -957,6 +957,13 @@ pub fn explore_files() -> Vec<(Cfg, Vec<Entry>)> {
         (c(1024, 1, 2), longs(12, 400)),
         // index level 3 with two blocks on level 2
         (c(1024, 8, 3), longs(36, 400)),
+        // keys of different lengths under one index block with several table slots (cached sizes /
+        // offsets of index entries would go stale)
+        (c(1024, 8, 0), (0..22u32).map(|i| {
+            let mut k = (i * 2 + 1).to_be_bytes().to_vec();
+            k.extend(std::iter::repeat(7u8).take((i % 5) as usize * 3));
+            (k, value_for(i + 1, 500))
+        }).collect()),
         // single block, interval 2
         (c(1024, 2, 0), short(9, 3)),
         (c(1024, 8, 0), vec![]),
